@@ -7,22 +7,32 @@ Model of retention / deletion (C14), mirroring pkg/retention/retention.go as it 
     given org; victim test `uint64(LatestEpochSec)*1000 <= deleteBefore` for metrics segments,
     `LatestEpochMS <= deleteBefore` for log segments.  The preceding `sort.Slice` has no observable
     effect (victims go into maps) and is not modelled.
-  * `DeleteSegmentData` (l.330-394): early return for an empty victim map, then five phases in this
-    order: blob objects → local files (`RemoveSegBasedirs`) → in-memory metadata (`DeleteSegmentKey`)
-    → empty-PQ meta (`deleteSegmentsFromEmptyPqMetaFiles`, which ranges over the `AllPQIDs` of the
-    SegMeta values it was handed) → segmeta.json (`RemoveSegMetas` → `removeSegmetas`,
-    pkg/segment/writer/segmetarw.go l.501-606, one atomic tmp+rename rewrite).  The order is tied to
-    the source by the go2lean call-order fact `DeleteSegmentData.order` (lib/props.py).
+  * `DeleteSegmentData` (l.330-400): early return for an empty victim map, then five phases in this
+    order (after the repair c14-6): empty-PQ meta (`deleteSegmentsFromEmptyPqMetaFiles`, which ranges
+    over the `AllPQIDs` of the SegMeta values it was handed, queues one removal per (pqid, segment) and
+    then WAITS until the writer's listener has written them: `writer.FlushPqsRequests`) → blob objects
+    → local files (`RemoveSegBasedirs`) → in-memory metadata (`DeleteSegmentKey`) → segmeta.json
+    (`RemoveSegMetas` → `removeSegmetas`, pkg/segment/writer/segmetarw.go l.501-606, one atomic
+    tmp+rename rewrite).  The order is tied to the source by the go2lean call-order facts
+    `DeleteSegmentData.order` and `deleteSegmentsFromEmptyPqMetaFiles.order` (lib/props.py).
     Phases 1-4 work segment by segment, so the step list below has one micro-step per (phase, victim);
     cutting it after any prefix models a crash at any point of the function.
+    (Before the repair c14-6 the empty-PQ phase came FOURTH — after the local files, and with them the
+    .sfm files that hold the pqids, were gone — and its removals were only queued, a channel drained every
+    10 s or every 100 requests: kept as `deleteOrderOld`.)
   * `ReadLocalSegmeta(false)` (segmetarw.go l.156): segmeta.json does not carry `AllPQIDs`
     (`json:"-"`), so the metas every pass hands to `DeleteSegmentData` have no pqids.  After the
-    repair `DeleteSegmentData` therefore starts with a loop that reads the pqids of every victim that
+    repair c14-1 `DeleteSegmentData` therefore starts with a loop that reads the pqids of every victim that
     carries none from the victim's `.sfm` file (`writer.ReadSfm`, which lives in the segment's base
-    directory: readable only while the local files exist) — `withSfmPqids`.  (Before the repair step 4
-    ranged over the empty `AllPQIDs` and was dead code: kept as `deleteSegmentDataOld` / `passOld`.)
-    `RemoveSegmentFromEmptyPqmeta` only queues the removal (a channel drained every 10 s or every
-    100 requests); the model treats step 4 as done when it is queued, the harness drains the queue.
+    directory: readable only while the local files exist) — `withSfmPqids`.  (Before that repair the
+    empty-PQ phase ranged over the empty `AllPQIDs` and was dead code: kept as `deleteSegmentDataOld` / `passOld`.)
+  * `pqsmeta.BulkAddEmptyResults` / `writeEmptyPqsMapToFile` (pkg/segment/query/pqs/meta/pqsmeta.go), the
+    record a rotation makes for a persistent query without a match in the segment (`AddToEmptyPqmetaChan`):
+    read the pqid's file (absent = empty), merge the key, write the file — after the repair c14-5 the writer
+    creates the pqmeta directory when it is missing (`os.MkdirAll`): `recordEmpty`.  (Before: the directory
+    is removed together with its last file by `removePqmrFilesAndDirectory`, i.e. by a retention pass that
+    removes the last empty-PQ entry, the write failed with ENOENT, the error was only logged, and every
+    record was dropped until a restart re-created the directory: `recordEmptyOld`.)
   * `doVolumeBasedDeletion` (l.212-300): `allowedVolumeGB*1000*1000*1000` (uint64), warning-counter
     gate, candidates = metrics metas ++ segmeta entries (all orgs), `sort.Slice` by
     `LatestEpochMS` resp. `uint64(LatestEpochSec) * 1000`, then the loop
@@ -121,11 +131,15 @@ inductive Phase where
   | blob | files | mem | pq | segmeta
 deriving DecidableEq, Repr
 
-/-- the phase order of `DeleteSegmentData` (tied by the call-order fact) -/
-def deleteOrder : List Phase := [.blob, .files, .mem, .pq, .segmeta]
+/-- the phase order of `DeleteSegmentData` (tied by the call-order fact): the empty-PQ meta files first — the
+pqids come from the victims' .sfm files, which go with the local files -/
+def deleteOrder : List Phase := [.pq, .blob, .files, .mem, .segmeta]
+
+/-- the phase order before the repair c14-6: the empty-PQ meta files after the local files were removed -/
+def deleteOrderOld : List Phase := [.blob, .files, .mem, .pq, .segmeta]
 
 /-- the order the code comment at step 5 warns against: segmeta.json first -/
-def segmetaFirstOrder : List Phase := [.segmeta, .blob, .files, .mem, .pq]
+def segmetaFirstOrder : List Phase := [.segmeta, .pq, .blob, .files, .mem]
 
 inductive Step where
   | blob (k : Nat)
@@ -191,6 +205,25 @@ def passCutOld (order : List Phase) (nowMs : Nat) (hours : Int) (s : Store) (cut
 def passOld (order : List Phase) (nowMs : Nat) (hours : Int) (s : Store) : Store :=
   let vs := victims nowMs hours 0 (readLocal s)
   deleteSegmentDataOld order vs s (stepsFor order vs).length
+
+/-! ### records made after a pass (`BulkAddEmptyResults`) -/
+
+/-- `BulkAddEmptyResults(pqid, {key})` after the repair c14-5: the entry is merged into the pqid's file (a map:
+an entry that is already there stays once), whether or not the pqmeta directory still exists -/
+def recordEmpty (s : Store) (e : Nat × Nat) : Store :=
+  if e ∈ s.pqMeta then s else { s with pqMeta := s.pqMeta ++ [e] }
+
+def recordAll (s : Store) (es : List (Nat × Nat)) : Store := es.foldl recordEmpty s
+
+/-- before the repair: did the run from `before` to `after` remove the pqmeta directory?  (`InitPqsMeta`
+creates it at start-up; `removePqmrFilesAndDirectory` removes a pqid's file with its last entry and the
+directory with its last file; nothing re-creates it while the process runs) -/
+def pqDirRemovedOld (before after : Store) : Bool := !before.pqMeta.isEmpty && after.pqMeta.isEmpty
+
+/-- `BulkAddEmptyResults` before the repair: without the directory `os.OpenFile(…O_CREATE…)` fails, the
+error is logged, the record is dropped -/
+def recordAllOld (dirRemoved : Bool) (s : Store) (es : List (Nat × Nat)) : Store :=
+  if dirRemoved then s else recordAll s es
 
 /-- a store without its empty-PQ meta files (the other four stores and the .sfm contents) -/
 def withoutPq (s : Store) : Store := { s with pqMeta := [] }
